@@ -1,6 +1,6 @@
 SPECIFICATION Spec
 CONSTANTS
-  Alphabet <- Alpha7
+  AlphaName = "seven"
   MaxLen = 4
   History = TRUE
 VIEW View
